@@ -600,3 +600,50 @@ func init() {
 		fmt.Println(string(b))
 	}
 }
+
+func init() {
+	// only-read-ratchet: the read ratchet alone over every anchor file (used to run the benign corpus quickly)
+	debugHooks["only-read-ratchet"] = func(p *ir.Program) {
+		c := &Ctx{P: p, R: report.New("DBG", "quick")}
+		files := map[string]bool{}
+		for _, m := range []map[string][]string{anchorFiles, extraAnchorFiles} {
+			for _, l := range m {
+				for _, f := range l {
+					files[f] = true
+				}
+			}
+		}
+		c.ruleReadRatchet("E6.read-ratchet", callPkgs, func(f string) bool { return files[f] }, "baselines/readguard.json", 5)
+		c.ruleLossyKey("E5.lossy-key", 3)
+		c.rulePackedField("E5.packed-field", 1)
+		c.ruleAfiAddrLen("E4.afi-addrlen", 1)
+		c.ruleResetRatchet("E6.reset-ratchet", callPkgs, func(f string) bool { return files[f] }, "baselines/storeconsts.json", 5)
+		for _, o := range c.R.All() {
+			if o.Verdict == report.Violation || o.Verdict == report.Undecided {
+				fmt.Printf("VIOLATION rule=%s %s %s %s: %s\n", o.Rule, o.Func, o.Construct, o.Pos, o.Detail)
+			}
+		}
+		fmt.Printf("DONE %d obligations\n", len(c.R.All()))
+	}
+}
+
+func init() {
+	debugHooks["lossy-key"] = func(p *ir.Program) {
+		c := &Ctx{P: p, R: report.New("DBG", "quick")}
+		c.ruleLossyKey("E5.lossy-key", 3)
+		c.rulePackedField("E5.packed-field", 1)
+		c.ruleAfiAddrLen("E4.afi-addrlen", 1)
+		for _, o := range c.R.All() {
+			fmt.Printf("%v %s %s %s: %s\n", o.Verdict, o.Func, o.Construct, o.Pos, o.Detail)
+		}
+	}
+}
+
+func init() {
+	debugHooks["storeconst-baseline"] = func(p *ir.Program) {
+		c := &Ctx{P: p, R: report.New("DBG", "quick")}
+		b, _ := json.MarshalIndent(c.scSigs(callPkgs), "", " ")
+		fmt.Println("BASELINE-BEGIN")
+		fmt.Println(string(b))
+	}
+}
